@@ -81,6 +81,8 @@ def make_case(rng, i, tier):
         desc["rules"].append([common.frac_str(rng.choice(gen.SMALL)), "S", ["a", "b"]])
         shape += "+ambiguous_spelling"
         V = desc["V"]
+    if not finite:
+        desc = gen.reconverge(desc, rng)      # the rules added above must not make a recursive grammar divergent
     if R == "Boolean":
         desc = gen.to_bool(desc)
     if R == "MaxTimes":
@@ -94,7 +96,7 @@ def make_case(rng, i, tier):
         a = t
     if "ab" not in V and rng.random() < 0.15:
         # integer token ids: the terminal 0 is falsy
-        desc, (ps, ys, aa), _ = gen.intify_terms(desc, ps, ys, [[a]])
+        desc, (ps, ys, aa), _ = gen.intify_terms(desc, ps, ys, [[a]], offset=rng.choice([0, 0, -len(desc["V"])]))
         a = aa[0][0]
         shape += "+int_tokens"
         tt = rng.choice([None, "float"])
